@@ -81,6 +81,7 @@ def inline_unknown(bodies, known, log=None):
     recursive = set()
     done = {}          # key -> fully expanded helper body dict
     inlined_into = {}  # helper key -> first caller path
+    inlined_all = {}   # helper key -> every caller path it was spliced into
 
     def expand(b, stack):
         """Inline unknown helpers into body dict b (in place on a copy); returns the new dict."""
@@ -115,6 +116,8 @@ def inline_unknown(bodies, known, log=None):
                 continue
             _splice(b, i, g)
             inlined_into.setdefault(tgt, b["path"])
+            if b["path"] not in inlined_all.setdefault(tgt, []):
+                inlined_all[tgt].append(b["path"])
             if log is not None:
                 log.append((tgt, _strip(b["path"])))
             # do not advance: the block now ends in a goto; continue with the next block
@@ -131,7 +134,26 @@ def inline_unknown(bodies, known, log=None):
     for k, b in unknown.items():
         if k not in inlined_into:
             out.append(expand(b, frozenset({k})))
-    # closures / promoteds of inlined helpers: re-parent to the first caller
+    # closures / promoteds of inlined helpers: re-parent to the first caller; a helper spliced into several callers donates a copy
+    # of its closures to each of them (as if the code had been written out in every caller)
+    extra = []
+    for b in out:
+        r = b.get("root")
+        if r and _strip(r) in inlined_all and len(inlined_all[_strip(r)]) > 1:
+            for caller in inlined_all[_strip(r)][1:]:
+                cb = by_key.get(_strip(caller))
+                # only for callers that are functions of their own (a caller that was itself inlined has passed the helper on)
+                if cb is None or _strip(caller) in unknown:
+                    continue
+                c2 = copy.deepcopy(b)
+                c2["root_original"] = r
+                c2["root"] = cb.get("root") or caller
+                pp = c2.get("parent")
+                if pp and _strip(pp) == _strip(r):
+                    c2["parent_original"] = pp
+                    c2["parent"] = caller
+                c2["inl_copy"] = True
+                extra.append(c2)
     for b in out:
         r = b.get("root")
         if r and _strip(r) in inlined_into:
@@ -139,7 +161,12 @@ def inline_unknown(bodies, known, log=None):
             cb = by_key.get(_strip(caller))
             b["root_original"] = r
             b["root"] = (cb.get("root") or caller) if cb is not None else caller
-    return out
+        # a closure written directly in the helper was, before the extraction, a closure of the caller
+        pp = b.get("parent")
+        if pp and _strip(pp) in inlined_into:
+            b["parent_original"] = pp
+            b["parent"] = inlined_into[_strip(pp)]
+    return out + extra
 
 
 def _returns_coroutine(b):
